@@ -34,7 +34,11 @@
 #define LD_AUT VATA::BDDTopDownTreeAut
 #endif
 using VATA::Util::AutDescription;
+#ifdef SHARED_NAMES   // a state is called like the nullary symbol and another one like the unary symbol (names are per section)
+static const char* const STN[3] = {"a", "f", "r"};
+#else
 static const char* const STN[3] = {"q", "p1", "r"};
+#endif
 // symbol pool: name, rank
 static const char* const SYN[3] = {"a", "f", "g2"}; static const int SYR[3] = {0, 1, 2};
 #ifndef NSY
